@@ -12,7 +12,8 @@ RULE = ("WSDLs with 0..3 services x 0..3 ports over two SOAP bindings (document:
         "service or port, an option set, or an error outcome; distinct = distinct (wsdl, options, expression)"
         ' ; plus: a SOAP 1.2 binding with a per-operation style, clients reused with changed service/port options, per-direction binding kinds (input and output soap:body with different use=)'
         ' ; services binding their own prefix for binding references; the unsupported style/use pair'
-        ' ; operation names with leading underscores')
+        ' ; operation names with leading underscores'
+        ' ; a port without an address')
 ASSUMPTIONS = ["Python negative indexes select from the end (modelled; the documented rules speak of indexes >= 0)"]
 PARTIAL = [{"theorem": "location_override_local", "missing": "proved through the options model (C14); checked here on real clients"}]
 TRUSTED = []
